@@ -103,6 +103,10 @@ Record Consistent (d : db) : Prop := mkCons {
   c_tip_mark : exists t, d KTipMark = Some t /\ present d (KIdx t) /\ d (KIdx (t + 1)) = None;   (* BFT store height = tip *)
   c_diff_block : forall h, present d (KDiff h) -> present d (KIdx h) }.                 (* no diff without its block *)
 
+(* while blocks are being restored from the temp table (processValidated with removeTemp, after deleteBlock with saveTemp):
+   the block of height h is in the chain or still in the temp table, never in neither *)
+Definition RestoreSafe (d : db) (h id : N) : Prop := d (KIdx h) = Some id \/ present d (KTemp h).
+
 (* side conditions under which the code issues the operation *)
 Definition add_pre (d : db) (i : add_in) : Prop :=
   a_ok i = true -> (exists t, d KTipMark = Some t /\ a_h i = t + 1) /\ d (KHeader (a_id i)) = None.
